@@ -875,6 +875,48 @@ theorem retry_after_stale_position_doubles :
   refine ⟨{ idx := 2, copy := exRec 77 0 5, line := formatComment ⟨0, false, true⟩ (exReq 77 1), ctype := 1, mtime := 77 }, ?_⟩
   decide +kernel
 
+/-! #### "changes only that article's index entry", under interleaving -/
+
+theorem step_entry_frame (find : Bytes → Nat → Bytes → Option Nat) (s : Sys) (ev : Ev) (q : Nat)
+    (hq : ¬(28 ≤ q % 128 ∧ q % 128 < 32) ∧ q % 128 ≠ 33) :
+    (stepEv find s ev).st.dir.bytes[q]? = s.st.dir.bytes[q]? := by
+  cases ev with
+  | begin cfg q' => simp only [stepEv]; split <;> rfl
+  | giveUp i => rfl
+  | write i =>
+    simp only [stepEv]
+    split
+    · rfl
+    · split
+      · rename_i h; rw [phaseWrite_dir h]
+      · rfl
+  | writeFault i room =>
+    simp only [stepEv]
+    split
+    · rfl
+    · simp only [phaseWriteFault]; split <;> rfl
+  | ext n bs => simp only [stepEv, extAppend]; split <;> rfl
+  | index i =>
+    simp only [stepEv]
+    split
+    · rfl
+    · rename_i t _; exact phaseIndex_frame s.st t q hq
+
+/-- **interleaved_entry_frame**: for EVERY interleaving of any number of commenters (on the same or on
+different articles, with whatever copies) and other lock holders, every byte of the index outside the
+`Modified` field and the `Recommend` byte of an entry is what it was: every entry keeps its name, owner,
+date, title, money and mode - no entry ever receives another entry's image.  Together with
+`interleaved_scores_bounded` (a score moves only by successful updates of its OWN entry): a comment changes
+only its article's index entry. -/
+theorem interleaved_entry_frame (find : Bytes → Nat → Bytes → Option Nat) (evs : List Ev) (s : Sys) (q : Nat)
+    (hq : ¬(28 ≤ q % 128 ∧ q % 128 < 32) ∧ q % 128 ≠ 33) :
+    (runEv find s evs).st.dir.bytes[q]? = s.st.dir.bytes[q]? := by
+  induction evs generalizing s with
+  | nil => rfl
+  | cons ev rest ih =>
+    show (runEv find (stepEv find s ev) rest).st.dir.bytes[q]? = _
+    rw [ih (stepEv find s ev), step_entry_frame find s ev q hq]
+
 /-- the sequential comment is the special case "phase A, write, index" with nothing in between. -/
 theorem sequential_is_interleaving (find : Bytes → Nat → Bytes → Option Nat) (cfg : Cfg) (st : St) (q : Req) :
     recommend find cfg st q =
